@@ -1,7 +1,7 @@
 (* C06/Properties.v — property theorems only (each closed by [exact lemma] and followed by
    [Print Assumptions]).  Model: C06/Model.v (the code after fix commits 3a7f18b, 811f017, 2c8a29b). *)
 From Coq Require Import String Permutation Morphisms.
-From RM Require Import C06.Model C06.Proofs C06.Proofs2 C06.Proofs3.
+From RM Require Import C06.Model C06.Proofs C06.Proofs2 C06.Proofs3 C06.Proofs4.
 Open Scope Z_scope.
 
 (* No Panic and no OutOfFuel: for ALL rule texts (arbitrary byte strings), every walker (any
@@ -131,16 +131,44 @@ Theorem c06_failure_modes :
 Proof. exact mock_walk_result. Qed.
 Print Assumptions c06_failure_modes.
 
-(* Refinement of the documented expression semantics (partial: expression level; the rule-set
-   level — address order, later rules override — is exercised by the oracle, not proved):
-   on programs whose tokens are all in the documented alphabet, for environments and CFA values
-   within u64, the implementation's evaluator equals the independent [spec_eval]. *)
-Theorem c06_refines_spec_partial :
+(* Refinement of the documented expression semantics: on programs whose tokens are all in the
+   documented alphabet, for environments and CFA values within u64, the implementation's
+   evaluator equals the independent [spec_eval]. *)
+Theorem c06_refines_spec_expr :
   forall p E cfa e,
     env_wf E -> (forall c, cfa = Some c -> 0 <= c < two64) -> Forall documented e ->
     val p E cfa e = spec_eval E cfa e.
 Proof. exact eval_refines_spec. Qed.
-Print Assumptions c06_refines_spec_partial.
+Print Assumptions c06_refines_spec_expr.
+
+(* Refinement of the documented semantics of a whole unwind step: for every INIT record with its
+   delta records (in file order), every lookup address, profile, word size, callee registers and
+   memory within u64 — whenever the expressions of the applicable records use documented tokens
+   only — SymbolFile::walk_frame with the abstract walker yields exactly [cfi_spec]: the same
+   Some/None, the same CFA and return address, and for EVERY register name the same cell (set to
+   its rule's value, cleared when its rule fails, untouched without a rule).  [cfi_spec] is built
+   from the independent pieces spec_pairs (right-to-left grouping into REG: EXPR), last_rule (later
+   overrides earlier), spec_eval; the record selection (sort by address, prefix <= lookup) is shared
+   with the implementation model. *)
+Theorem c06_refines_spec :
+  forall w p E r addr,
+    env_wf E -> all_documented r addr ->
+    match walk_frame_cfi (mock_ops w) p E r addr m_init, cfi_spec w E r addr with
+    | Ret (Some s), Some (cfa, ra, regs) =>
+        m_cfa s = Some cfa /\ m_ra s = Some ra /\ forall n, m_regs s n = regs n
+    | Ret None, None => True
+    | _, _ => False
+    end.
+Proof. exact walk_refines_spec. Qed.
+Print Assumptions c06_refines_spec.
+
+(* the text-level part on its own, for ALL byte strings: parse_cfi_exprs is the grouping spec *)
+Theorem c06_parse_refines_spec :
+  forall texts out,
+    parse_all texts out =
+    match all_pairs texts with Some ps => Ret (fold_left ins ps out) | None => Fail end.
+Proof. exact parse_all_spec. Qed.
+Print Assumptions c06_parse_refines_spec.
 
 (* ---- non-vacuity ---- *)
 Example c06_nonvacuous_walk :
@@ -173,4 +201,21 @@ Proof.
   split; [vm_compute; reflexivity|].
   intros n1 n2 [H1|[H1|[]]] [H2|[H2|[]]] Hne; subst n1 n2;
     try (exfalso; apply Hne; reflexivity); right; right; vm_compute; intro H; discriminate H.
+Qed.
+
+Example c06_nonvacuous_spec :
+  let E := mkEnv (fun n => assoc n [(bs "rsp", 100); (bs "rax", 7)])
+                 (mem_read 8 96 [1;2;3;4;5;6;7;8;9;10;11;12;13;14;15;16;17;18;19;20;21;22;23;24]) 5 false 0 in
+  let r := mkCfi (0, bs ".cfa: $rsp 8 + .ra: .cfa -8 + ^") 16
+                 [(6, bs "$rbx: 5"); (1, bs ".cfa: $rsp 16 + $rax: .cfa -16 + ^ $rcx: 1 0 /")] in
+  all_documented r 5 /\
+  match cfi_spec 8 E r 5 with
+  | Some (cfa, ra, regs) => cfa = 116 /\ ra = 1446519769809227277 /\ regs (bs "rcx") = Cleared /\
+                            regs (bs "rax") = SetTo 867798387104613893 /\ regs (bs "rbx") = Unset
+  | None => False
+  end.
+Proof.
+  split; [|vm_compute; repeat split; reflexivity].
+  intros ps H. vm_compute in H. inversion H; subst ps.
+  repeat constructor; cbn [snd]; intro D; vm_compute in D; discriminate D.
 Qed.
